@@ -426,6 +426,8 @@ def run(an: Analysis, rep):
     rep.rule("R04.7", "len(args)", 1)
     from .common import purity
     rep.run(purity, an, rep, "R04.P", ["from_code", "parameters", "args_len"])
+    from .common import assert_guard_rule as _agrx
+    rep.run(_agrx, an, rep, "R04.A", ["from_code", "parameters", "args_len"])
     rep.run(r04f, an, rep)
     from .common import SharedRules as _SR4
     from . import c01 as _c01
@@ -1143,6 +1145,8 @@ def r04f(an, rep, rule="R04.W"):
         ("a function with a cell variable", FN, 1, 0, 0, ("a",), (None,), ("a",), "outer", ((), ("a",), None, (), None), None, None),
         ("a module", ("NOFREE",), 0, 0, 0, (), ("doc", None), (), "<module>", "nofunc", None, None),
         ("a class body that owns the __class__ cell", (), 0, 0, 0, (), ("C", None), ("__class__",), "C", "nofunc", None, None),
+        ("a function whose constant is a string with a lone surrogate", FN + ("NOFREE",), 0, 0, 0, (), (None, "\ud83d x"), (), "f", ((), (), None, (), None), None, None),
+        ("a function whose constant is a tuple with bytes, -0.0 and a surrogate inside", FN + ("NOFREE",), 0, 0, 0, (), (None, (b"\xff", -0.0, ("\udcff",), frozenset({1.0}))), (), "f", ((), (), None, (), None), None, None),
         ("a class body inside a function that reads a local of that function", ("NESTED",), 0, 0, 0, (), ("C", None), ((), ("x",)), "C", "nofunc", None, None),
         ("a nested function that reads a local of the enclosing function", FN + ("NESTED",), 1, 0, 0, ("a",), (None,), ((), ("x", "y")), "inner", ((), ("a",), None, (), None), None, None),
     ]
@@ -1198,7 +1202,16 @@ def r04f(an, rep, rule="R04.W"):
                 raise AnalysisError(f"{top.qual}: the result on the witness code object is not a CodeData")
             tp = got.get("type")
             why = None
-            if exp_args == "nofunc":
+            # the one instruction that loads a constant loads co_consts[-1]: the value itself, type- and bit-exact
+            loaded = [i.get("arg") for b in (got.get("blocks") or ()) for i in b if isinstance(i, Obj) and i.get("name") == "LOAD_CONST"]
+            wantc = consts[-1]
+            if len(loaded) != 1 or not isinstance(loaded[0], Obj) or loaded[0].get("__cls__") != "Constant":
+                why = f"the LOAD_CONST instruction is decoded as {loaded!r}"
+            elif repr(loaded[0].get("constant")) != repr(wantc) or type(loaded[0].get("constant")) is not type(wantc):
+                why = f"LOAD_CONST loads {ascii(wantc)} in CPython, the decoded operand is {ascii(loaded[0].get('constant'))}"
+            if why:
+                pass
+            elif exp_args == "nofunc":
                 if tp is not None:
                     why = f"type is {tp.get('__cls__') if isinstance(tp, Obj) else tp!r}, expected None for code that is not a function"
             elif not isinstance(tp, Obj) or tp.get("__cls__") != "Function":
